@@ -37,6 +37,7 @@ import (
 	"runtime/pprof"
 	"sort"
 	"strconv"
+	"strings"
 	"sync/atomic"
 	"time"
 
@@ -298,6 +299,7 @@ type run struct {
 
 	listed []uint64 // snapshot ids in the directory as of the last storage operation
 
+	spIDs       []uint64        // checkpoints published as savepoints so far (see writeDkvStubs)
 	splArrivals []*gate.Arrival // AdvAck: arrivals at splitter.Checkpoint() seen by collect, not yet attributed
 }
 
@@ -405,12 +407,35 @@ func (h *harness) newDir() string {
 // is only read when a savepoint artifact is created, so it is written then.
 func dkvStub(dir, op string) string { return filepath.Join(dir, "dkv", op, "checkpoints") }
 
-func writeDkvStubs(dir string, ops []string) {
+//
+// The savepoint artifact copies the files of the DKV checkpoint that belongs to
+// the job checkpoint being published (recovery.ListCheckpointFiles looks the id
+// up in the document), so the document lists every id published as a savepoint
+// so far.
+func writeDkvStubs(dir string, ops []string, ids []uint64) {
+	var entries []string
+	for _, id := range ids {
+		entries = append(entries, fmt.Sprintf(`{"id":%d,"wals":[],"levels":[],"refs":[],"last_seq_num":0}`, id))
+	}
+	doc := []byte(`{"checkpoints":[` + strings.Join(entries, ",") + `]}`)
 	for _, op := range ops {
 		p := dkvStub(dir, op)
-		if _, err := os.Stat(p); err != nil {
-			os.MkdirAll(filepath.Dir(p), 0o755)
-			os.WriteFile(p, []byte(`{"checkpoints":[{"id":1,"wals":[],"levels":[],"refs":[],"last_seq_num":0}]}`), 0o644)
+		os.MkdirAll(filepath.Dir(p), 0o755)
+		os.WriteFile(p, doc, 0o644)
+	}
+}
+
+// storeErrs receives what the stores report on their ErrChan (failed publications).
+var storeErrs = make(chan error, 1024)
+
+func lastStoreErr() string {
+	msg := "none"
+	for {
+		select {
+		case e := <-storeErrs:
+			msg = e.Error()
+		default:
+			return msg
 		}
 	}
 }
@@ -418,7 +443,7 @@ func writeDkvStubs(dir string, ops []string) {
 func newStore(loc locations.StorageLocation, retained chan []uint64, events chan string, spl *splitter) *snapshots.Store {
 	st := snapshots.NewStore(&snapshots.NewStoreParams{
 		FileStore: loc, SavepointsPath: "savepoints", CheckpointsPath: "checkpoints",
-		CheckpointEvents: events, ErrChan: make(chan error, 64), RetainedCheckpointsUpdated: retained,
+		CheckpointEvents: events, ErrChan: storeErrs, RetainedCheckpointsUpdated: retained,
 	})
 	st.RegisterSourceSplitter(spl)
 	return st
@@ -1095,7 +1120,8 @@ func (r *run) step(st mbt.Step) error {
 			return driftf("PublishWrite(%d): no such write is waiting (waiting: %v)", id, heldIDs(inc.writes))
 		}
 		if st.Bool("sp") {
-			writeDkvStubs(r.dir, h.ops)
+			r.spIDs = append(r.spIDs, id)
+			writeDkvStubs(r.dir, h.ops, r.spIDs)
 		}
 		x.op.uri, x.op.err = r.ld.Write(x.op.path, bytes.NewReader(x.op.data))
 		x.op.exec = true
@@ -1110,7 +1136,7 @@ func (r *run) step(st mbt.Step) error {
 			if len(inc.parked) > 0 {
 				return errSerialised // the publication waits for the lock the parked acknowledgement holds
 			}
-			return driftf("PublishWrite(%d): publication did not finish", id)
+			return driftf("PublishWrite(%d): publication did not finish (the store's last error: %s)", id, lastStoreErr())
 		}
 	case "PublishDelete":
 		want := sortedU(u64s(st["ids"]))
